@@ -434,3 +434,23 @@ V("C14", "drain-stale-local", "fire", (MATCHER, """    for pattern in fs.active_
             continue
         if pattern.is_accepting():
             pattern.end = len(sequence)"""), "end read once before the loop", "drain loop")
+
+# ------------------------------------------------------------------ C12
+V("C12", "check-open-bare", "fire", (CHK, "        code = _read_file(path)\n", "        with open(path) as f:\n            code = f.read()\n"),
+  "pre-fix: check has no latin-1 fallback", "check_file/decoding")
+V("C12", "check-filters-comments", "fire", (CHK, "tokens = lex(lexer, code, False)", "tokens = lex(lexer, code, True)"), "nocl marker invisible to check", "lex-filter")
+V("C12", "check-file-arg-not-excluded", "fire", (CHK, "            if is_excluded(rel_path, excludes_spec):\n                return\n", "            pass\n"),
+  "excluded file checked when named directly", "_handle_file_path/no-exclusion-test")
+V("C12", "check-walk-not-excluded", "fire", (CHK, "                        if is_excluded(rel_path, excludes_spec):\n                            continue\n", "                        pass\n"),
+  "excluded files checked through a directory", "check_command/walk/no-exclusion-test")
+V("C12", "check-dirs-rebound", "fire", (CHK, "                dirs[:] = [d for d in dirs if not d[0] == \".\"]", "                dirs = [d for d in dirs if not d[0] == \".\"]"),
+  "hidden directories walked by check", "check_command/dirs-pruning")
+V("C12", "check-spec-other-root", "fire", (CHK, "excludes_spec = generate_exclude_spec(Path.cwd())", "excludes_spec = generate_exclude_spec(paths[0])"),
+  "exclusion spec rooted elsewhere", "exclude-spec")
+V("C12", "check-language-by-lexer-alias", "fire", (CHK, "lexer_name = Languages.by_name[lexer.__class__.name]", "lexer_name = Languages.by_name[lexer.__class__.aliases[0]]"),
+  "language looked up by a different key", "check_file/language")
+V("C12", "format-line-plus-one", "fire", (U, "    result.append(str(measurement.start.line))", "    result.append(str(measurement.start.line + 1))"),
+  "check prints another line than scan stores", "format_measurement")
+V("C12", "check-var-renamed-silent", "silent", (CHK, "        lexer_name = Languages.by_name[lexer.__class__.name]\n        if lexer_name:\n            measurements = scan_file(tokens, lexer_name)",
+                                              "        language = Languages.by_name[lexer.__class__.name]\n        if language:\n            measurements = scan_file(tokens, language)"),
+  "local renamed")
